@@ -166,6 +166,13 @@ Builtin(op, a) ==
     [] op = "!"  -> Of3(Not3(To3(a[1])))
     [] op \in {"==", "!=", "<", "<=", ">", ">="} -> Of3(Cmp3(op, a[1], a[2]))
     [] op = "->" -> Rec(<< <<"arg", a[1]>>, <<"value", a[2]>> >>)
+    [] op = "InList" /\ ~IsNull(a[2]) ->
+         \* `x in l` as an expression is two-valued (the IN_LIST UDF of the SQLite
+         \* engine is Python's `in`): a null element is an element like any other,
+         \* a null item is found iff the list holds a null.  The documentation is
+         \* silent; this is the behaviour of the unchanged tree, taken as the
+         \* meaning (C20 notes).  Only a null *list* gives null.
+         Bool(\E i \in 1..Len(a[2][2]) : a[2][2][i] = a[1])
     [] anyNull -> Null
     [] op = "+" -> Num(a[1][2] + a[2][2])
     [] op = "-" -> IF n = 1 THEN Num(0 - a[1][2]) ELSE Num(a[1][2] - a[2][2])
